@@ -468,7 +468,7 @@ func Eval(db *model.DB, q gen.Select) (*Output, error) {
 	}
 	if q.Limit != nil {
 		out.Limit = *q.Limit
-		if start+*q.Limit < end {
+		if *q.Limit < end-start { // (not start+limit: that overflows for LIMIT <largest integer>)
 			end = start + *q.Limit
 		}
 	}
